@@ -246,6 +246,33 @@ fn judge_curve3(case: &Case, l: &mut Local) {
     l.outcome(hash_of(&(c.count(), 3u8)));
     let moved = ct.count() == c.count() && c.points().iter().zip(ct.points().iter()).all(|(a, b)| d3(&(iso * a), b) <= tol);
     l.check("curve3: vertices moved, length invariant", "", moved && (ct.length() - c.length()).abs() <= tol && ct.tol() == c.tol(), mk, || format!("{} vs {}", c.length(), ct.length()));
+    // construction commutes with the motion also where the tolerance matters: with a curve tolerance of 0.1 and
+    // extra vertices 0.11 .. 0.12 from their neighbours (closer than the tolerance along every single axis), the
+    // curve built from the moved points is the built curve moved
+    {
+        let mut raw: Vec<Point3> = Vec::new();
+        for (k, p) in pts.iter().enumerate() {
+            raw.push(*p);
+            if k + 1 < pts.len() && (pts[k + 1] - p).norm() > 0.5 {
+                let d = (pts[k + 1] - p).normalize();
+                // a short step off the vertex, roughly along the edge but spread over all three axes
+                let step = (d * 0.1 + Vector3::new(0.045, 0.05, 0.04) * if k % 2 == 0 { 1.0 } else { -1.0 }).normalize() * [0.1118, 0.1212][k % 2];
+                raw.push(p + step);
+            }
+        }
+        let moved_raw: Vec<Point3> = raw.iter().map(|p| iso * p).collect();
+        match (guarded(|| Curve3::from_points(&raw, 0.1)), guarded(|| Curve3::from_points(&moved_raw, 0.1))) {
+            (Ok(Ok(a)), Ok(Ok(b))) => {
+                l.bucket("curve3 with a coarse tolerance x iso");
+                let am = a.transformed_by(&iso);
+                let same = am.count() == b.count() && am.points().iter().zip(b.points().iter()).all(|(x, y)| d3(x, y) <= tol);
+                l.check("curve3: construction with a coarse tolerance commutes with the motion", "", same && a.count() == raw.len(), mk, || format!("{} raw points: {} vertices built then moved, {} vertices moved then built", raw.len(), am.count(), b.count()));
+            }
+            (a, b) => {
+                l.check("curve3: construction with a coarse tolerance commutes with the motion", "presence", a.map(|x| x.is_ok()).ok() == b.map(|x| x.is_ok()).ok(), mk, String::new);
+            }
+        }
+    }
     let v = c.points().to_vec();
     for q in queries3() {
         l.eval();
